@@ -60,7 +60,9 @@ func BuildScratch(jobs []GenJob, race bool) (*Scratch, error) {
 		jobs[i].Check = true
 		jobs[i].Registry = true
 	}
+	t0 := time.Now()
 	res := RunGenJobs(jobs, 0)
+	Debugf("scratch: generated+checked %d packages in %.1fs", len(jobs), time.Since(t0).Seconds())
 	for i, r := range res {
 		s.Results[jobs[i].ID] = r
 		if strings.HasPrefix(r.Err, "HARNESS") {
@@ -100,7 +102,9 @@ func BuildScratch(jobs []GenJob, race bool) (*Scratch, error) {
 	cmd := exec.Command("go", args...)
 	cmd.Dir = dir
 	cmd.Env = append(os.Environ(), "GOFLAGS=-mod=mod", "GOPROXY=off", "GOSUMDB=off", "GOTOOLCHAIN=local")
+	t0 = time.Now()
 	out, err := cmd.CombinedOutput()
+	Debugf("scratch: go build %.1fs", time.Since(t0).Seconds())
 	if err != nil {
 		return nil, fmt.Errorf("go build of scratch module failed (pre-flight passed, so this is a harness problem): %v\n%s", err, tail(string(out), 3000))
 	}
@@ -133,6 +137,8 @@ func (s *Scratch) Run(groups any, timeout time.Duration, env ...string) ([]json.
 	var buf bytes.Buffer
 	cmd.Stdout = &buf
 	cmd.Stderr = &buf
+	t0 := time.Now()
+	defer func() { Debugf("scratch: driver run %.1fs", time.Since(t0).Seconds()) }()
 	if err := cmd.Start(); err != nil {
 		return nil, "", err
 	}
